@@ -14,7 +14,9 @@ import time
 
 VERIF = os.path.dirname(os.path.dirname(os.path.abspath(__file__)))
 HARNESS = os.path.join(VERIF, "harness")
-RLV = os.path.join(HARNESS, "target", "release", "rlv")
+# a sanitizer overlay (py/sanitize.py) points the same checks at an instrumented build
+RLV = os.environ.get("VERIF_RLV_BIN") or os.path.join(HARNESS, "target", "release", "rlv")
+OVERLAY = os.environ.get("VERIF_OVERLAY", "")
 SCRATCH_ROOT = "/dev/shm" if os.path.isdir("/dev/shm") else tempfile.gettempdir()
 NCPU = os.cpu_count() or 4
 
@@ -255,7 +257,8 @@ class Report:
                 seen_known.setdefault(v.signature, []).append(v)
             else:
                 new.append(v)
-        os.makedirs(os.path.join(VERIF, "replays", self.prop), exist_ok=True)
+        replay_dir = os.path.join(VERIF, "replays", self.prop) if not OVERLAY else os.path.join(SCRATCH_ROOT, f"rlv-overlay-replays-{self.prop}")
+        os.makedirs(replay_dir, exist_ok=True)
         lines = []
         for sig, vs in sorted(seen_known.items()):
             lines.append(f"KNOWN-FINDING: property={self.prop} {sig}: {open_by_sig[sig]['description']} "
@@ -265,7 +268,7 @@ class Report:
             if v.signature in reported:
                 continue
             reported.add(v.signature)
-            path = os.path.join(VERIF, "replays", self.prop, f"{h([v.signature, v.witness])}.json")
+            path = os.path.join(replay_dir, f"{h([v.signature, v.witness])}.json")
             json.dump({"property": self.prop, "signature": v.signature, "what": v.what,
                        "witness": v.witness, "seed": self.seed, "tier": self.tier},
                       open(path, "w"), indent=1, default=str)
@@ -288,8 +291,10 @@ class Report:
             "coverage": cov, "assumptions": self.assumptions,
             "wall_s": round(time.time() - self.t0, 2), "violations": len(new),
         }
-        os.makedirs(os.path.join(VERIF, "evidence"), exist_ok=True)
-        json.dump(ev, open(os.path.join(VERIF, "evidence", f"{self.prop}.json"), "w"), indent=1, default=str)
+        evdir = os.path.join(VERIF, "evidence") if not OVERLAY else os.path.join(VERIF, "evidence", ".overlay")
+        os.makedirs(evdir, exist_ok=True)
+        evname = f"{self.prop}.json" if not OVERLAY else f"{self.prop}-{OVERLAY}.json"
+        json.dump(ev, open(os.path.join(evdir, evname), "w"), indent=1, default=str)
         for l in lines:
             print(l, flush=True)
         if new:
